@@ -6,6 +6,7 @@ mkdir -p /tmp/dev/verif
 rsync -a --delete --exclude .build --exclude evidence --exclude replays --exclude .git --exclude seeded /verif/ /tmp/dev/verif/
 mkdir -p /tmp/dev/verif/evidence /tmp/dev/verif/replays
 sed -i 's#=> /repo#=> /tmp/dev/repo#' /tmp/dev/verif/mc/go.mod /tmp/dev/verif/third_party/goyacc/go.mod 2>/dev/null || true
-git -C /tmp/dev/repo checkout -q --detach $(git -C /repo rev-parse HEAD) 2>/dev/null || true
+REV=$(cat /tmp/dev/REV 2>/dev/null || git -C /repo rev-parse HEAD)   # /tmp/dev/REV: a pending fix commit not yet on main
+git -C /tmp/dev/repo checkout -q --detach "$REV" 2>/dev/null || true
 cd /tmp/dev/verif
 VERIF_DIR=/tmp/dev/verif REPO=/tmp/dev/repo ./check.sh "$@"
